@@ -158,10 +158,17 @@ def _matrix(r, rows, cols):
     return [[float(x) for x in np.round(r.uniform(-2.0, 3.0, size=cols), 2)] for _ in range(rows)]
 
 
+MATVEC_PLACES = ["plain", "plus-scalar-x", "plus-x", "minus-x-times-par", "times-x", "of-scaled", "of-product", "nested",
+                 "two-matrices", "fn", "other-var", "abs", "strided-arg", "with-const-vector", "plus-scalar-x", "of-scaled"]
+_matvec_counter = [0]
+
+
 def fam_matvec(r):
     n = int(r.integers(2, 5))
-    place = str(r.choice(["plain", "plus-scalar-x", "plus-x", "minus-x-times-par", "times-x", "of-scaled", "of-product", "nested",
-                          "two-matrices", "fn", "other-var", "abs", "strided-arg", "with-const-vector"]))
+    # every placement in turn (so that each run covers all of them), coefficients cycle through integer and non-integer values
+    place = MATVEC_PLACES[_matvec_counter[0] % len(MATVEC_PLACES)]
+    coef = [3.0, -1.5, 0.5, 2.0][(_matvec_counter[0] // len(MATVEC_PLACES) + _matvec_counter[0]) % 4]
+    _matvec_counter[0] += 1
     vars_ = [("x", ROUND(r, n), None)]
     pars = [("A", "matrix", dict(value=_matrix(r, n, n))), ("b2", "plain", dict(value=ROUND(r, n)))]
     X = ("var", 0, ("w",))
@@ -170,7 +177,7 @@ def fam_matvec(r):
     if place == "plain":
         e0 = ("sub", AX, one)
     elif place == "plus-scalar-x":
-        e0 = ("sub", ("add", ("neg", AX), ("mul", ("num", float(r.choice([3.0, 2.0, -1.5]))), X)), one)
+        e0 = ("sub", ("add", ("neg", AX), ("mul", ("num", coef), X)), one)
     elif place == "plus-x":
         e0 = ("add", AX, X)
     elif place == "minus-x-times-par":
@@ -178,7 +185,7 @@ def fam_matvec(r):
     elif place == "times-x":
         e0 = ("sub", ("mul", X, AX), one)
     elif place == "of-scaled":
-        e0 = ("sub", ("matvec", 0, n, ("mul", ("num", 3.0), X)), one)
+        e0 = ("sub", ("matvec", 0, n, ("mul", ("num", coef), X)), one)
     elif place == "of-product":
         e0 = ("sub", ("matvec", 0, n, ("mul", ("par", 1, ("w",)), X)), one)
     elif place == "nested":
@@ -373,7 +380,7 @@ def fam_random_matrix(r):
 
 
 FAMILIES = [fam_len1_mixed, fam_strided, fam_neg_stride, lambda r: fam_list(r, "l"), lambda r: fam_list(r, "lp"), fam_par_list, fam_par_strided, fam_oob,
-            fam_mismatch, fam_ode_mismatch, fam_matvec, fam_matvec, fam_matvec_shape, fam_time_name, fam_zero_step, fam_random, fam_random,
+            fam_mismatch, fam_ode_mismatch, fam_matvec, fam_matvec, fam_matvec, fam_matvec, fam_matvec, fam_matvec, fam_matvec_shape, fam_time_name, fam_zero_step, fam_random, fam_random,
             fam_random_matrix, fam_random_matrix]
 
 
@@ -476,6 +483,7 @@ def run(rep, tier, seed):
         "sympy, numpy and scipy are oracles; values are compared with tolerance 1e-9 relative (summation order of A @ x is not fixed)"]
     failed = rep.add_proof(prove("C18"))
     rng = np.random.default_rng(seed)
+    _matvec_counter[0] = 0
     per_family = 3 if tier == "quick" else 40
     tmp = tempfile.mkdtemp(prefix="c18_")
     lines, slots = [], []
